@@ -54,6 +54,13 @@ class TensorLogProbUGrammar(TaggedUGrammar[Tensor, U, V, W]):
         start: Optional[Tuple[Type, U]] = None,
     ) -> Tensor:
         device = self.device
+        if start is None:
+            # the derivation starts at the start symbol that derives the program:
+            # its log-probability is part of the sum, as its probability is part
+            # of ProbUGrammar.probability
+            for S in self.starts:
+                if self.__contains_rec__(program, S, self.start_information())[0]:
+                    return self.start_tags[S] + self.log_probability(program, S)
         return self.reduce_derivations(
             lambda current, S, P, V: current + self.tags[S][P][tuple(V)],  # type: ignore
             torch.zeros((1,)).to(device),
